@@ -240,6 +240,33 @@ func runC06(c *core.Case) {
 	c.KF(pa.lon, pa.lat, pa.alt, pb.lon, pb.lat, pb.alt)
 	c.KI(h, v)
 	c.Tag("kind-" + kind)
+	if r.P(0.12) {
+		// object reuse: the same two Point objects first describe a neighbouring segment (end points a voxel or two
+		// away), which is voxelised, and are then moved to the judged end points through the setters (sometimes only
+		// the end point moves); the judged call must see the current coordinates
+		wLon := 360 / math.Ldexp(1, int(h))
+		res := math.Ldexp(1, int(25-v))
+		jit := func(p pt) pt {
+			q := pt{p.lon + r.Uniform(-2, 2)*wLon, p.lat + r.Uniform(-2, 2)*wLon*0.5, p.alt + r.Uniform(-2, 2)*res}
+			q.lon = math.Max(-180, math.Min(180, q.lon))
+			q.lat = math.Max(-ref.MaxLat, math.Min(ref.MaxLat, q.lat))
+			q.alt = math.Max(-(1 << 25), math.Min(1<<25, q.alt))
+			return q
+		}
+		oa, ob := jit(pa), jit(pb)
+		set := func(o *object.Point, p pt) { o.SetLon(p.lon); o.SetLat(p.lat); o.SetAlt(p.alt) }
+		set(a, oa)
+		set(b, ob)
+		_, _ = shape.GetExtendedSpatialIdsOnLine(a, b, h, v)
+		c.Call()
+		if r.P(0.7) {
+			set(a, pa)
+		} else { // only the end point moves: the judged segment starts where the earlier one started
+			pa = oa
+		}
+		set(b, pb)
+		c.Tag("reused-point-objects")
+	}
 	ends, err := shape.GetExtendedSpatialIdsOnPoints([]*object.Point{a, b}, h, v)
 	c.Call()
 	if err != nil || len(ends) != 2 {
